@@ -1,0 +1,42 @@
+//go:build verif
+
+package eio
+
+import "github.com/karagenc/socket.io-go/engine.io/parser"
+
+// Exports for the runtime-verification harness (build tag `verif` only).
+
+// VerifSessionCount returns the number of live sessions in the store.
+func (s *Server) VerifSessionCount() int { return len(s.store.getAll()) }
+
+type verifBatchTransport struct {
+	name    string
+	batches [][]*parser.Packet
+}
+
+func (t *verifBatchTransport) Name() string { return t.name }
+func (t *verifBatchTransport) Handshake() (*parser.HandshakeResponse, error) {
+	return nil, nil
+}
+func (t *verifBatchTransport) Run() {}
+func (t *verifBatchTransport) Send(packets ...*parser.Packet) {
+	cp := make([]*parser.Packet, len(packets))
+	copy(cp, packets)
+	t.batches = append(t.batches, cp)
+}
+func (t *verifBatchTransport) Discard() {}
+func (t *verifBatchTransport) Close()   {}
+
+// VerifSplitBatches runs the client's real batching routine
+// (writeWritablePackets) against a recording transport and returns the
+// batches that were handed to the transport, in order.
+func VerifSplitBatches(maxPayload int64, transportName string, packets []*parser.Packet) [][]*parser.Packet {
+	t := &verifBatchTransport{name: transportName}
+	s := &clientSocket{
+		transport:  t,
+		maxPayload: maxPayload,
+		debug:      NewNoopDebugger(),
+	}
+	s.Send(packets...)
+	return t.batches
+}
